@@ -154,6 +154,7 @@ def run(ctx):
     # Python scalar operands (values, signed zeros, sequences of Python-equal scalars)
     cases += families.scalar_operand_cases(rnd, 200 if ctx.tier == "quick" else 2000)
     cases += families.pow_special_cases(rnd, 120 if ctx.tier == "quick" else 1200)
+    cases += families.special_value_cases(rnd, 120 if ctx.tier == "quick" else 1200)
     # operands of different dtypes (the library casts before the kernel), and the same call repeated on one array
     # object after an in-place update (nothing may be remembered on the object)
     md = families.mixed_dtype_cases(rnd, 80 if ctx.tier == "quick" else 800)
